@@ -151,3 +151,52 @@ def run_program(acc, case: dict, prog: dict, inputs: List[tuple], configs: List[
                 acc.states += s
                 acc.transitions += t
                 acc.outcome((refres[0], repr(refres[1])))
+            # one more step on the SAME DAG object: an executor run that passes every argument explicitly, then a plain call that
+            # relies on the defaults - the call must not see what the executor was given
+            full = [a for a in inputs if len(a) == len(prog["params"])]
+            short = [a for a in inputs if len(a) < len(prog["params"])]
+            if full and short and any(p_[1] != ir.NODEFAULT for p_ in prog["params"]):
+                a_full, a_short = full[-1], short[0]
+                if is_async:
+                    async def op_e(a=a_full):
+                        return await d.executor()(*a)
+
+                    async def op_c(a=a_short):
+                        return await d(*a)
+                else:
+                    def op_e(a=a_full):
+                        return d.executor()(*a)
+
+                    def op_c(a=a_short):
+                        return d(*a)
+                for op_, a_, what in ((op_e, a_full, "executor run"), (op_c, a_short, "call after an executor run with explicit arguments")):
+                    ref_ = ir.ref_eval(prog, a_, setup_cache if stateful_setup else None)
+                    res_ = H.run_controlled(op_, is_async=is_async)
+                    acc.evaluations += 1
+                    compare(acc, dict(case, config=config, is_async=is_async, args=list(a_), after_executor=list(a_full), step=what), prog, a_, res_, ref_, src, (),
+                            check_calls)
+
+
+def replay_built(a, v):
+    """Replays one recorded (program, configuration, flavour, arguments, choice prefix) on a freshly built DAG - including the
+    executor run that preceded the call when the violation was found in the 'executor run, then defaulted call' step."""
+    c = v["case"]
+    prog = c["prog"]
+    d, ns, src = build(prog, c["config"], c["is_async"], c.get("local_subs", False))
+    args, is_async = tuple(c["args"]), c["is_async"]
+
+    def mk(kind, a_):
+        if is_async:
+            async def op():
+                return await (d.executor()(*a_) if kind == "e" else d(*a_))
+        else:
+            def op():
+                return d.executor()(*a_) if kind == "e" else d(*a_)
+        return op
+
+    step = c.get("step") or ""
+    if c.get("after_executor") is not None and step.startswith("call"):
+        H.run_controlled(mk("e", tuple(c["after_executor"])), is_async=is_async)
+    res = H.run_controlled(mk("e" if step == "executor run" else "c", args), prefix=tuple(v["prefix"]), is_async=is_async)
+    compare(a, c, prog, args, res, ir.ref_eval(prog, args), src)
+    return a.violations, res.trace
